@@ -1,0 +1,9 @@
+//go:build !verif
+
+package commitlog
+
+// crashPoint marks a point between two file-system effects of the commit log.
+// It does nothing unless the package is built with the `verif` tag (see
+// verif_crash.go), where the verification harness uses it to kill the process
+// at a chosen point.
+func crashPoint(string) {}
